@@ -143,7 +143,7 @@ PROPS["C18"] = {
     "level": "model_checking",
     "technique": "exhaustive enumeration of the configuration space: every identifier value 0..255 is offered to fp_param_set, ep_param_set and eb_param_set in each verified build; every accepted parameter set is put through every consistency obligation, decided with GMP primality tests, reference group laws (prime, F_p^2, binary) and a reference quotient-ring tower, never with the library's own arithmetic",
     "level_text": "Per selectable set: p prime and of the configured size, Montgomery constants, non-residues, 2-adicity, sparse forms; curve non-singular, generator on the curve, r prime, [r]G = O, Hasse bound for r h, [r h]T = O for 8 independent curve points (with Hasse and r prime this pins the order), ep_mul_cof maps them into the subgroup and kills exactly what [h] kills, advertised level vs bits(r), coefficient-class flags; endomorphism curves: beta primitive cube root of unity, (beta x, y) = [lambda]G for a root of l^2 + l + 1 mod r, ep_psi agrees, GLV decomposition through the stored lattice satisfies k0 + k1 lambda = k mod r with half-length parts on 12 scalars; pairing sets: p and r equal the family polynomials at the stored parameter and its sparse form, r | Phi_12(p), r divides no p^j - 1 (j | 12, j < 12), twist type derived from b' (b/xi or b xi), G2 on the twist and of order r, Hasse over F_p^2, [r h2]T = O for 4 twist points, ep2_mul_cof lands in G2, psi(G2) = [p]G2, e(G1, G2) non-degenerate, of order r and equal to gt_get_gen; binary sets: f(z) irreducible by Rabin's test, curve non-singular, generator on the curve, r prime, [r]G = O, Hasse, [r h]T = O for 8 points built by half-trace, Koblitz flag, level.",
-    "level_note": "Worlds: the shipped 256/283-bit build, the 381-bit build (B12_P381) and the 255-bit build. Edwards parameter sets are decided in C17's harness (same obligations on the Edwards reference). The k = 8, 16, 18, 24, 48, 54 families and the other field sizes need one build each and are not visited: listed as not reached. Hash-to-curve constants are decided where they are used (C13). The thorough tier also runs the 446-bit builds (BN_P446; B12_P446 where its twist is defined, i.e. under FP_QNRES).",
+    "level_note": "Worlds: the shipped 256/283-bit build, the 381-bit build (B12_P381) and the 255-bit build. Edwards parameter sets are decided in C17's harness (same obligations on the Edwards reference). The k = 8, 16, 18, 24, 48, 54 families and the other field sizes need one build each and are not visited: listed as not reached. Hash-to-curve constants are decided where they are used (C13). The thorough tier also runs the 446-bit builds (BN_P446; B12_P446 where its twist is defined, i.e. under FP_QNRES). In the builds of the other families (315, 330, 575, 638 bits; thorough) every selectable set gets the field, curve, order, cofactor, level and embedding-degree obligations (the multiplicative order of p modulo r must be the advertised k, for any family); twist / tower / pairing-value obligations of the k != 12 families are judged by the family job of C04.",
     "rule": "cases are (selection function, identifier) for all 3 x 256 identifier values: non-trivial when the identifier is accepted; states = selectable parameter sets; transitions = obligations evaluated.",
     "assumptions": ["GMP primality (64 Miller-Rabin rounds)", "reference group laws and tower"],
     "jobs": [
@@ -151,6 +151,10 @@ PROPS["C18"] = {
         {"name": "param-w64-381", "world": "W64-381", "src": "props/C18_param.c", "share": 0.3},
         {"name": "param-w64-446", "world": "W64-446", "src": "props/C18_param.c", "tiers": ("thorough",)},
         {"name": "param-w64-446q", "world": "W64-446q", "src": "props/C18_param.c", "tiers": ("thorough",)},
+        {"name": "param-w64-315", "world": "W64-315", "src": "props/C18_param.c", "tiers": ("thorough",)},
+        {"name": "param-w64-330", "world": "W64-330", "src": "props/C18_param.c", "tiers": ("thorough",)},
+        {"name": "param-w64-638", "world": "W64-638", "src": "props/C18_param.c", "tiers": ("thorough",)},
+        {"name": "param-w64-575q", "world": "W64-575q", "src": "props/C18_param.c", "tiers": ("thorough",)},
         {"name": "param-w64-255", "world": "W64-255", "src": "props/C18_param.c"},
     ],
 }
